@@ -681,6 +681,10 @@ REPEATABLE = {
     "designator_chain": ("struct s v = { ", lambda i: ".m[0]", "", " = 1 };"),
     "call_args": ("void f(void){ g(", lambda i: f"{i}", ", ", "); }"),
     "string_concat": ("char *s = ", lambda i: '"ab"', " ", ";"),
+    "string_concat_long_pieces": ("char *s = ", lambda i: '"' + "x" * 1022 + '"', " ", ";"),
+    "string_concat_mixed_prefix_long_pieces": (
+        "int *s = ", lambda i: ('L"' if i % 2 else '"') + "x" * 1020 + '"', "\n", ";"),
+    "string_concat_as_call_argument": ("void f(void){ g(", lambda i: '"' + "y" * 510 + '"', " ", "); }"),
     "wstring_concat": ("int *s = ", lambda i: 'L"ab"', " ", ";"),
     "params": ("void f(", lambda i: f"int p{i}", ", ", ");"),
     "params_abstract": ("void f(", lambda i: "char *", ", ", ");"),
@@ -759,6 +763,30 @@ def repeat_text(name, k):
 
 def repeat_names():
     return list(REPEATABLE) + list(REPEATABLE2)
+
+
+# Work that is neither a call nor a bulk container call (string slicing and
+# concatenation, walking a chain in a while loop) shows only in time: the
+# repetition families are also timed through parse() at large k (x4 ladder,
+# growth rule).  Quick: the constructs that repeat inside ONE declaration or
+# expression, plus a few distinct-name declaration kinds; thorough: all.
+TIMED_REPEAT_SIZES = (512, 2048, 8192)
+TIMED_REPEAT_SIZES_LONG_ITEMS = (256, 1024, 4096)
+TIMED_REPEAT_QUICK = [
+    "string_concat", "wstring_concat", "string_concat_long_pieces",
+    "string_concat_mixed_prefix_long_pieces", "string_concat_as_call_argument",
+    "array_dims", "pointer_stars", "pointer_qualifiers", "qualifier_run", "alignas_run",
+    "designator_chain", "offsetof_chain", "subscript_chain", "member_chain", "call_chain",
+    "postinc_chain", "binary_chain", "binary_mixed_chain", "comma_chain", "init_items",
+    "init_items_designated", "call_args", "params", "knr_identifiers", "enumerators",
+    "struct_members", "init_declarators", "struct_declarators", "case_labels",
+    "distinct_func_def_one_line", "distinct_knr_def", "distinct_brace_init_array",
+    "distinct_struct_body_var", "decl_typedef_use",
+]
+
+
+def timed_repeat_sizes(name):
+    return TIMED_REPEAT_SIZES_LONG_ITEMS if "long_pieces" in name or "as_call_argument" in name else TIMED_REPEAT_SIZES
 
 
 # ---------------------------------------------------------------------------
@@ -1200,6 +1228,8 @@ def parse_time(text, repeat=3, warm_limit=120.0, run_limit=20.0):
     from pycparser.c_parser import CParser, ParseError
 
     tune_malloc()
+    if sys.getrecursionlimit() < RECURSION_LIMIT:
+        sys.setrecursionlimit(RECURSION_LIMIT)
 
     import gc
 
